@@ -566,6 +566,7 @@ def run(tier, seed):
         "Cube.dimensions[i].apply_transforms (what partitions do)",
     ]
     return rep.finish("proof", ob, trusted_base=core.TRUSTED_BASE_COMMON + [
+        _dimension_trusted_base(),
         "Model/Shim.v is hand-written; tied to dimension.py (_ElementIdShim), Elements.from_typedef and "
         "the sort-by-opposing-element helpers of matrix/assembler.py by this correspondence run only",
         "equivalence of spellings outside the proved [wf] class is decided by the model's translate"])
@@ -1098,3 +1099,11 @@ def replay(path):
     if not fails:
         print("REPLAY: no longer fails")
     return 1 if fails else 0
+
+
+def _dimension_trusted_base():
+    try:
+        from harness.translate import x_dimension
+        return x_dimension.TRUSTED_BASE
+    except Exception:
+        return "dimension translator harness/translate/x_dimension.py not importable"
